@@ -1,5 +1,6 @@
 import PbProofs.Dft
 import PbProofs.Shift
+import PbModel.Gen.Shift
 
 /-! # C04 — freq_shift moves the spectrum by the given amount, zeroing what leaves the band
 
@@ -72,5 +73,22 @@ theorem C04_every_element (Nn : Nat) (sampleShape shiftShape : List Nat) (vals :
 theorem C04_roundtrip (X : ZMod N → ℂ) : 𝓕 (𝓕⁻ X) = X := Pb.Dft.inv_dft X
 
 example : zeroFill 8 [2] [1] [-3/2] = [([0], 6, 8), ([1], 6, 8)] := by decide +kernel
+
+/-- Tie to the source: the body of `freq_shift`'s zero-fill loop, translated symbolically on every run
+(`Gen/Shift.lean`), is the model's: for an element shift `a` the region `[⌊a⌋:]` is emptied when `a < 0` and
+`[:⌈a⌉]` otherwise; the phase
+factor is `exp(+2πi · …)` of the listed factors. -/
+theorem C04_source_loop :
+    (∀ (N : Nat) (a : Rat), zeroInterval N a =
+      if (Gen.Shift.fsRegion a).1 = true then ((adj N (some (Gen.Shift.fsRegion a).2) 0).toNat, N)
+      else (0, (adj N (some (Gen.Shift.fsRegion a).2) N).toNat)) ∧
+    Gen.Shift.fsPhaseSign = 1 ∧ Gen.Shift.fsPhaseFactors = ["ft", "n[ix]"] := by
+  refine ⟨?_, by decide, by decide⟩
+  · intro N a
+    by_cases h : a < 0
+    · have h' : ¬ (0 ≤ a) := not_le.mpr h
+      simp [zeroInterval, Gen.Shift.fsRegion, Crop.floor, Crop.ceil, h, h']
+    · have h' : 0 ≤ a := not_lt.mp h
+      simp [zeroInterval, Gen.Shift.fsRegion, Crop.floor, Crop.ceil, h, h']
 
 end Pb.C04
